@@ -26,8 +26,9 @@ Definition show_codec (c : codec_case) := (wfb (cc_val c), print (cc_val c), par
 
 (* -------------------------------------------------------------------------------------------- *)
 (** Part "loads": an arbitrary text and what json.loads(text, object_pairs_hook=OrderedDict) did with it
-    ([None] = JSONDecodeError).  Float lexemes in these texts are canonical (equal to the repr of their
-    value), so the implementation's result can be written with the same opaque tokens. *)
+    ([None] = JSONDecodeError).  Float lexemes are observed verbatim (json.loads is run with parse_float and
+    parse_constant hooks that keep the lexeme the scanner cut out), so non-canonical spellings such as
+    1.50 or 2E5 are compared exactly as well. *)
 Record loads_case := { lc_text : str; lc_result : option jv }.
 
 Definition check_loads (c : loads_case) : bool := opt_jv_eqb (parse (lc_text c)) (lc_result c).
